@@ -31,6 +31,10 @@ CHECKS = {
    technique="TLC: Fragmentation.tla partition lemma + RtpsLink.tla/RtpsReader.tla model checking; replay into the real writer->reader link and the real reader; TLC trace validation of fragment geometry, completeness, exact bytes, delivered once",
    text="Fragment geometry (number, offset and length of every DATAFRAG the real writer emits, sizes around multiples of 48/64/1024-byte fragments) is judged by the operators of Fragmentation.tla, whose partition lemma TLC checks for all fragment sizes 1..9 and sizes up to 4*fs+3; reassembly is checked end to end: every sample the real DataReader hands over must be byte-identical to what was written, handed over once and only after all fragments were delivered, under every drop/duplicate schedule of the link model and random permutations, duplications and interleavings of fragments of several samples and writers on the reader driver.",
    note="same bounds as C02 and C01; payload bytes are position dependent so that a misplaced or foreign fragment changes the comparison"),
+ "C06": dict(level="exploration", engine="tlc+reader/writer-driver under supervisor", design="§4 C06",
+   technique="TLC places a hostile step of each class at every reachable state of RtpsReader.tla (non-interference); hostile classes x protocol states replayed on the real Reader/Writer under a supervisor (rlimit, watchdog); TLC trace validation of the well-behaved peers' traffic",
+   text="A catalogue of ~70 classes of well-framed but hostile datagrams (extreme sequence numbers, counts, bitmap sizes, fragment numbers/sizes, data sizes, flag combinations, lengths, truncation at every offset, wrong magic/version, unknown kinds), from a matched and from an unmatched peer, is injected into the real MessageReceiver->Reader and MessageReceiver->Writer at TLC-enumerated protocol states and at seeded random points. Per injection the harness records panic, wall time, bytes allocated by the thread, and the supervisor records process death or hang; the valid traffic of the other peers before and after must still be accepted by Trace_RtpsReader / Trace_RtpsWriter (non-interference).",
+   note="not arbitrary byte strings (that is fuzzing); budgets 250 ms and 1 MiB + 256 x bytes per injection; address space 3 GiB; two known findings (GAP ranges, DATAFRAG dataSize) are listed by exact class signature"),
 }
 NOT_APPLICABLE = {}
 
